@@ -18,6 +18,16 @@ Definition tm_of_args (a : args) : res tm :=
 Definition s17_of_args (a : args) : res tm :=
   srv17_new (int 0 0 a) (int 0 1 a) (lst 1 a) (int 0 2 a) (lst 2 a) (int 0 3 a) (int 0 4 a) (int 0 5 a).
 
+Definition tm_op_of (l : list Z) : tm_op :=
+  match l with
+  | 0 :: _ => TmPack
+  | 2 :: _ => TmCalcCrc
+  | 3 :: d => TmSetData d
+  | 5 :: v :: _ => TmSetApid v
+  | 7 :: v :: _ => TmSetSeqFlags v
+  | _ => TmPack
+  end.
+
 Definition run_tm (op : Z) (a : args) : args :=
   match op with
   | 600 => ret tm_fields (tm_of_args a)
@@ -35,6 +45,12 @@ Definition run_tm (op : Z) (a : args) : args :=
   | 609 => ret (fun r => [[r]]) (tm_service_from_bytes (lst 0 a))
   | 610 => ret (fun r => [fst r; [tm_packet_len (snd r)]]) (do t <- s17_of_args a; srv17_pack t)
   | 611 => ret tm_fields (srv17_unpack (lst 0 a) (int 1 0 a))
+  | 612 => ret (fun r => r)
+             (do t <- tm_of_args a;
+              do u <- tm_run t (map tm_op_of (skipn 3 a));
+              do sp <- tm_to_space_packet_pack u;
+              do p <- tm_pack u;
+              Ok [sp; fst p; [tm_packet_len u]])
   | 650 => [[0]; tm_layout (int 0 0 a) (int 0 1 a) (int 0 2 a) (int 0 3 a) (int 0 4 a)
                            (int 0 5 a) (int 0 6 a) (int 0 7 a) (lst 1 a) (lst 2 a)]
   | _ => [[1; 97]]
